@@ -43,6 +43,16 @@ fn main() {
                     let e = match XEnc::deserialize(&unhex(f[2])) { Ok(e) => e, Err(_) => return "UNPARSABLE".into() };
                     let h = EncryptedHeader { encapsulation: e, encrypted_metadata: opt(f[3]) }; let ad = opt(f[4]);
                     match h.decrypt(&cc, u, ad.as_deref()) { Ok(Some(c)) => format!("OK:{}:{}", hex(&*c.secret), show(&c.metadata)), Ok(None) => "NONE".into(), Err(_) => "ERR".into() } }
+                "HDRKEY" => { let md = opt(f[1]).unwrap_or_default(); let ad = opt(f[2]);
+                    // does the SECRET RETURNED TO THE CALLER decrypt the encrypted metadata when used as the AES key?
+                    use cosmian_crypto_core::{Dem, FixedSizeCBytes, Instantiable, Nonce, SymmetricKey};
+                    let (s, h) = EncryptedHeader::generate(&cc, &mpk, &pol, Some(&md), ad.as_deref()).unwrap();
+                    let emd = h.encrypted_metadata.unwrap();
+                    let key = SymmetricKey::<32>::try_from_bytes((*s).clone()).unwrap();
+                    let n = Nonce::<12>::try_from_slice(&emd[..12]).unwrap();
+                    let mut same = false;
+                    for a in [ad.as_deref(), None] { if Aes256Gcm::new(&key).decrypt(&n, &emd[12..], a).is_ok() { same = true; } }
+                    if same { "SAME".into() } else { "DIFF".into() } }
                 "HDRDECS" => { let u = if f[1] == "1" { &good } else { &bad };
                     let h = match EncryptedHeader::deserialize(&unhex(f[2])) { Ok(h) => h, Err(_) => return "UNPARSABLE".into() }; let ad = opt(f[3]);
                     match h.decrypt(&cc, u, ad.as_deref()) { Ok(Some(c)) => format!("OK:{}:{}", hex(&*c.secret), show(&c.metadata)), Ok(None) => "NONE".into(), Err(_) => "ERR".into() } }
